@@ -52,6 +52,7 @@ func checkC11(c *Ctx) {
 	c.R.NotCovered = "Keep-alive arithmetic and wall-clock behaviour, delivery of the resulting gossip, quiescent cross-node consistency of listings."
 	c.R.Assume("closing the transport makes a blocked Decode return an error")
 	defer c.ruleKeepAliveZero("C11-R9")
+	defer c.ruleKeepAliveWidth("C11-R10")
 	ru1 := c.R.Rule("C11-R1", "teardown (first caller only): exactly one registry delete of the session's own id; a loop over session.GetTopics() deleting each subscription under the session's own id; on every path where the client id still resolves to this session the session record is deleted exactly once, whether or not DISCONNECT was seen", "E1 decision table + loop matcher + E3", 3)
 	td := c.teardown(ru1)
 	if td != nil {
@@ -126,7 +127,7 @@ func checkC11(c *Ctx) {
 
 	ru2 := c.R.Rule("C11-R2", "every path out of the per-connection goroutine closes the session's connection (directly, deferred, or inside the teardown on all its paths)", "E1 must-call summary (depth 3)", 1)
 	ru3 := c.R.Rule("C11-R3", "the keep-alive deadline (Session.ExtendDeadline) is armed on the accepting CONNECT path before the per-connection goroutine is started, and re-armed on every iteration of the read loop", "E2 path order", 2)
-	ru8 := c.R.Rule("C11-R8", "once the session is inserted in the registry, every path of the CONNECT handler starts the per-connection goroutine (the only place that tears the session down)", "E1 paths", 1)
+	ru8 := c.R.Rule("C11-R8", "the session is inserted in the registry before its per-connection goroutine is started, and once it is inserted every path of the CONNECT handler starts that goroutine (the only place that tears the session down)", "E1 paths", 1)
 	handler, authCall := c.connectHandler(ru2)
 	sa := c.setupAnchors(ru2)
 	if handler != nil && sa != nil && td != nil {
@@ -177,6 +178,9 @@ func checkC11(c *Ctx) {
 						n++
 						if !armed {
 							bad3 = "the per-connection goroutine is started while the 3 s CONNECT read deadline is still in force: a client idle right after CONNECT is cut although it is within its keep-alive"
+						}
+						if !registered {
+							bad8 = "the per-connection goroutine is started before the session is in the registry: if the connection ends at once its teardown finds nothing to remove and takes the session for already shut down (no will, record and subscriptions left behind), and the session is then registered as a zombie — " + fmtPath(p, c.P)
 						}
 					}
 				}
